@@ -114,8 +114,8 @@ func findTarShape(p *load.Program) *tarShape {
 }
 
 func runC12(c *core.Ctx) {
-	runFixtures(c, "drop", "valid")
-	c.Explain("Structural clauses of C12 decided from source (thin: contents, modes, 'nothing else' and writer schedules are behaviour): (R12.1) every read of archive/tar.Header.Name in package tar is passed through the normaliser (path.Clean + leading-\"/\" trim) and the normalised name reaches only calls on the destination file system (interface methods, FS helpers), the announce key and path.Dir — package tar contains no primitive sink, so an escaping '../x' is refused by the destination's own validation (C04/A1); (R12.2) the error of every destination-FS call and every copy step in the unpack functions and their background closures propagates: returned, wrapped, or sent on the error channel whose receive ends the unpack with that error (accepted: errors.Is(ErrExist) on Mkdir of a directory entry, which continues with Chmod; io.EOF on the tar stream); (R12.3) on that ErrExist edge Chmod is called with the header's mode; (R12.4) the destination calls for an entry are made after the success edge of creating its parent path; (R12.5) every buffer taken from a pool is given back on every path that does not end the unpack with an error, closure continuations included, and no path (callees and spawned writers counted) gives the same buffer back twice — a buffer that is in the pool twice is handed to two later entries, whose bytes then mix; (R12.6) the normaliser applies path.Clean to the entry name itself: cleaning a string with '/' prepended silently drops leading '..' elements, so an entry that resolves outside the root would be unpacked inside it instead of failing the unpack; (R12.7) the Mkdir/Chmod of a directory entry runs in the read loop itself, not in a spawned writer: in the background it races with the next entry's preparation of the same directory as a parent (0700), and the header's mode can be lost depending on the schedule; (R12.8) the blocking select that ends the unpack ('an error, or all writers done') polls the error channel again on the done branch before it reports success, because both cases can be ready at once. NOT claimed: the resulting tree.")
+	runFixtures(c, "drop", "valid", "read")
+	c.Explain("Structural clauses of C12 decided from source (thin: contents, modes, 'nothing else' and writer schedules are behaviour): (R12.1) every read of archive/tar.Header.Name in package tar is passed through the normaliser (path.Clean + leading-\"/\" trim) and the normalised name reaches only calls on the destination file system (interface methods, FS helpers), the announce key and path.Dir — package tar contains no primitive sink, so an escaping '../x' is refused by the destination's own validation (C04/A1); (R12.2) the error of every destination-FS call and every copy step in the unpack functions and their background closures propagates: returned, wrapped, or sent on the error channel whose receive ends the unpack with that error (accepted: errors.Is(ErrExist) on Mkdir of a directory entry, which continues with Chmod; io.EOF on the tar stream); (R12.3) on that ErrExist edge Chmod is called with the header's mode; (R12.4) the destination calls for an entry are made after the success edge of creating its parent path; (R12.5) every buffer taken from a pool is given back on every path that does not end the unpack with an error, closure continuations included, and no path (callees and spawned writers counted) gives the same buffer back twice — a buffer that is in the pool twice is handed to two later entries, whose bytes then mix; (R12.6) the normaliser applies path.Clean to the entry name itself: cleaning a string with '/' prepended silently drops leading '..' elements, so an entry that resolves outside the root would be unpacked inside it instead of failing the unpack; (R12.7) the Mkdir/Chmod of a directory entry runs in the read loop itself, not in a spawned writer: in the background it races with the next entry's preparation of the same directory as a parent (0700), and the header's mode can be lost depending on the schedule; (R12.8) the blocking select that ends the unpack ('an error, or all writers done') polls the error channel again on the done branch before it reports success, because both cases can be ready at once. (R12.9) every direct Read call in package tar is a delegation, a call of the package's own full reader, or a loop that is left only on an error / a full buffer and whose successful returns looked at the count of the latest Read (the last chunk of an entry arrives together with io.EOF). (R12.10) the entry-processing function returns nil only on paths that created the directory entry on the destination, called the writer or spawned a background writer; (R12.11) the write methods of the key-value handle (the default destination is mem.FS) never store the caller's buffer, only copy from it — the reader returns its buffers to a pool as soon as Write returns. NOT claimed: the resulting tree.")
 	c.Assume("A1: the destination file system rejects names that would escape its root", "A2: archive/tar, path, io behave as documented")
 	c.RuleDoc("R12.1", "header names normalised and only delegated")
 	c.RuleDoc("R12.2", "a refused or failing entry fails the unpack")
@@ -124,6 +124,9 @@ func runC12(c *core.Ctx) {
 	c.RuleDoc("R12.5", "pool buffers are returned, once")
 	c.RuleDoc("R12.8", "the final wait re-checks the error channel when the writers' completion wins the select")
 	c.RuleDoc("R12.7", "directory entries are created in the foreground")
+	c.RuleDoc("R12.10", "an entry is reported done only after it was created, written or handed to a writer")
+	c.RuleDoc("R12.11", "the default destination (mem/keyvalue) copies written bytes: the reader recycles its buffers (= R02.16)")
+	c.RuleDoc("R12.9", "entry bytes are copied by read loops that keep the bytes arriving with io.EOF and never stop at a short count")
 	c.RuleDoc("R12.6", "the normaliser cleans the entry name itself, never a rooted string")
 	for _, p := range c.Progs {
 		c.SetProg(p)
@@ -138,6 +141,13 @@ func runC12(c *core.Ctx) {
 		r12Parents(c, p, sh)
 		r12Buffers(c, p, sh, "R12.5")
 		r12Normaliser(c, p, sh)
+		readDiscipline(c, p, "R12.9", pkgFuncs(p, "tar"))
+		r12EveryEntryProcessed(c, p, sh)
+		if fileT := p.Named("keyvalue", "file"); fileT != nil {
+			r02NoAdopt(c, p, fileT, "R12.11")
+		} else {
+			c.Hard("anchor: keyvalue.file")
+		}
 	}
 	c.Floor("R12.1", 2)
 	c.Floor("R12.2", 8)
@@ -147,6 +157,9 @@ func runC12(c *core.Ctx) {
 	c.Floor("R12.6", 2)
 	c.Floor("R12.7", 1)
 	c.Floor("R12.8", 1)
+	c.Floor("R12.9", 1)
+	c.Floor("R12.10", 1)
+	c.Floor("R12.11", 3)
 }
 
 func r12Names(c *core.Ctx, p *load.Program, sh *tarShape) {
@@ -840,4 +853,54 @@ func r12Normaliser(c *core.Ctx, p *load.Program, sh *tarShape) {
 		fmt.Sprintf("%s cleans the entry name before stripping its leading slashes: path.Clean of a rooted name drops '..' elements at the top ('/../x' becomes '/x'), so a rooted entry that resolves outside the root is unpacked inside it instead of failing the unpack", fname(fn)))
 	c.Check(rooted == "", "R12.6", key, p.Pos(cl.Pos()), "path.Clean is applied to the entry name itself: an escaping name keeps its leading '..' and is refused by the destination",
 		fmt.Sprintf("%s cleans %s: path.Clean of a rooted path drops leading '..' elements, so an entry named '../x' is unpacked as 'x' inside the root instead of making the unpack fail", fname(fn), rooted))
+}
+
+// r12EveryEntryProcessed (R12.10): the entry-processing function reports success only on paths on which it created the
+// directory entry on the destination, wrote the file, or handed the file to a background writer. An early
+// 'return nil' (an entry that "needs nothing", e.g. the root "./") skips the Mkdir -> ErrExist -> Chmod route, and the
+// directory keeps the destination's default mode instead of the permission bits of its entry.
+func r12EveryEntryProcessed(c *core.Ctx, p *load.Program, sh *tarShape) {
+	fn := sh.process
+	eidx := ssax.ErrorResultIndex(fn.Signature)
+	if eidx < 0 {
+		c.Hard("anchor: %s returns no error", fname(fn))
+		return
+	}
+	var skip string
+	work := 0
+	complete := ssax.EnumPaths(fn, fn.Blocks[0], 0, ssax.NewPathState(), ssax.PathHooks{
+		Instr: func(ps *ssax.PathState, ins ssa.Instruction) {
+			switch x := ins.(type) {
+			case *ssa.Go:
+				ps.Counts["work"] = 1
+				work++
+			case *ssa.Call:
+				if fieldInvoke(ins, sh.named, sh.destField, "Mkdir") != nil || fieldInvoke(ins, sh.named, sh.destField, "MkdirAll") != nil || ssax.StaticCallee(x) == sh.write {
+					ps.Counts["work"] = 1
+					work++
+				}
+			}
+		},
+		End: func(ps *ssax.PathState, last ssa.Instruction) {
+			r, ok := last.(*ssa.Return)
+			if !ok || ps.Counts["work"] == 1 || skip != "" {
+				return
+			}
+			e := ps.Resolve(resolveSpilledOnPath(r.Results[eidx], r, ps))
+			if ssax.IsNilConst(e) || ps.NilOf(e) == ssax.IsNil {
+				skip = p.Pos(r.Pos())
+			}
+		},
+	})
+	key := fname(fn) + "|success-only-after-the-entry-was-handled"
+	switch {
+	case !complete:
+		c.Unknown("R12.10", key, p.Pos(fn.Pos()), "path enumeration exceeded its cap")
+	case work == 0:
+		c.Hard("anchor: %s neither creates directories, writes files nor spawns writers", fname(fn))
+	case skip != "":
+		c.Bad("R12.10", key, skip, fmt.Sprintf("%s returns nil at %s on a path on which the entry was neither created as a directory, written, nor handed to a background writer: the entry is silently skipped (a directory entry such as './' keeps the destination's default mode instead of its own permission bits; a file entry is missing)", fname(fn), skip))
+	default:
+		c.OK("R12.10", key, p.Pos(fn.Pos()), "every successful return follows the directory creation, the file write or the hand-over to a writer")
+	}
 }
